@@ -198,7 +198,8 @@ def _kind_confusion(run: Run, prog: Program, model: Model, eqf: Optional[FuncInf
     else:
         run.violated("EQ-FALLBACK", "eq(schema, <non-schema value>)", eqf.loc, "comparison with a plain value does not validate it",
                      witness="schema.int == 1 is not validate(schema.int, 1)")
-    ps_s = run_eq(lambda i: i.make_schema(st, []))
+    other_st = model.schemas["AnySchema"]
+    ps_s = run_eq(lambda i: i.make_schema(st, [])) + run_eq(lambda i: i.make_schema(other_st, []))
     structural = bool(ps_s) and all(not any(e.kind == "accept" for e in p.events) for p in ps_s)
     if structural:
         run.holds("EQ-FALLBACK", "eq(schema, schema)", eqf.loc, "structural (class test + props ==), never validates", nontrivial=True)
@@ -280,4 +281,9 @@ MUTANTS += [
 MUTANTS += [
     {"name": "eq() short-circuits on a declared constant equal to the value", "rule": "EQ-FALLBACK",
      "edits": [("d42/validation/__init__.py", "    return not validate(schema, value=value).has_errors()", "    if getattr(schema.props, \"value\", None) == value and value is not None:\n        return True\n    return not validate(schema, value=value).has_errors()")]},
+]
+
+MUTANTS += [
+    {"name": "eq() tests the operand against the schema's own class first", "rule": "EQ-FALLBACK",
+     "edits": [("d42/validation/__init__.py", "    if isinstance(value, Schema):\n        return isinstance(value, schema.__class__) and (schema.props == value.props)", "    if isinstance(value, schema.__class__):\n        return bool(schema.props == value.props)")]},
 ]
